@@ -296,6 +296,10 @@ func (x *Exec) modEffect(e *Effects, m ast.Expr, scope map[string]types.Type, co
 		}
 	case *ast.CallExpr:
 		id, _ := n.Fun.(*ast.Ident)
+		if id != nil && id.Name == "allbut" {
+			e.all = true
+			return
+		}
 		if id != nil && id.Name == "gh" && len(n.Args) == 2 {
 			if lit, ok := n.Args[0].(*ast.BasicLit); ok {
 				nm, _ := strconv.Unquote(lit.Value)
